@@ -880,10 +880,12 @@ func (fr *fileRewriter) applyHook(h Hook, imports map[string]string) (string, bo
 }
 
 func (fr *fileRewriter) applyConst(c ConstOverride) {
-	for _, d := range fr.f.Decls {
-		gd, ok := d.(*ast.GenDecl)
+	// package-level and function-local const/var declarations alike (a local
+	// `const chunkSize = 900` is a tuning knob just as a package-level one is)
+	ast.Inspect(fr.f, func(n ast.Node) bool {
+		gd, ok := n.(*ast.GenDecl)
 		if !ok || (gd.Tok != token.CONST && gd.Tok != token.VAR) {
-			continue
+			return true
 		}
 		for _, sp := range gd.Specs {
 			vs := sp.(*ast.ValueSpec)
@@ -895,5 +897,6 @@ func (fr *fileRewriter) applyConst(c ConstOverride) {
 				}
 			}
 		}
-	}
+		return true
+	})
 }
